@@ -320,6 +320,7 @@ type Ctx struct {
 	n       int
 	declared map[string]bool
 	infos    map[int]*itemInfo
+	Filter   bool // drop quantified assumptions unrelated to the goal (off: experiments showed it removes needed links)
 	// threshold above which compound terms are named
 	NameLimit int
 }
@@ -672,6 +673,13 @@ func (c *Ctx) itemInfo(i int) *itemInfo {
 // about a heap family that the goal (transitively through definitions and the kept
 // quantified assertions) talks about.
 func (c *Ctx) relevant(mark int, goal string) []bool {
+	if !c.Filter {
+		keep := make([]bool, mark)
+		for i := range keep {
+			keep[i] = true
+		}
+		return keep
+	}
 	keep := make([]bool, mark)
 	defIdx := map[string]int{}
 	for i := 0; i < mark; i++ {
@@ -684,11 +692,24 @@ func (c *Ctx) relevant(mark int, goal string) []bool {
 	// families reachable from a symbol list through definitions
 	famCache := map[int]map[string]bool{}
 	var famOfDef func(i int, depth int) map[string]bool
+	// array-sorted constants (fresh contents of copies, havocs, canonical keys ...) link axioms to
+	// goals just like heap families do
+	arrSym := map[string]bool{}
+	for i := 0; i < mark; i++ {
+		t := c.Items[i].Text
+		if strings.HasPrefix(t, "(declare-fun ") && strings.Contains(t, "() (Array ") {
+			if m := symRe.FindString(t[len("(declare-fun "):]); m != "" {
+				arrSym[m] = true
+			}
+		}
+	}
 	famOfSyms := func(syms []string, depth int) map[string]bool {
 		out := map[string]bool{}
 		for _, s := range syms {
 			if m := heapFamRe.FindStringSubmatch(s); m != nil {
 				out[m[1]] = true
+			} else if arrSym[s] {
+				out[s] = true
 			}
 			if di, ok := defIdx[s]; ok && depth < 50 {
 				for f := range famOfDef(di, depth+1) {
